@@ -18,9 +18,15 @@ import (
 
 // runMany calls f from n goroutines released together, plus twice sequentially,
 // and reports whether all results are identical.
-func runMany(n int, seed uint64, f func() Sx) Sx {
+func runMany(n int, seed uint64, f func() Sx) Sx { return runManyRef(n, seed, f, f) }
+
+// runManyRef takes the sequential reference result from ref -- for a shared object, the same call on
+// a second object built from the same description -- so that the FIRST use of the shared object is
+// already concurrent (a serializer that stores something into its input on first use only would
+// otherwise have done so before the goroutines start).
+func runManyRef(n int, seed uint64, f func() Sx, ref func() Sx) Sx {
 	results := make([]string, n+2)
-	results[0] = f().String()
+	results[0] = ref().String()
 	start := make(chan struct{})
 	var wg sync.WaitGroup
 	order := NewRng(seed)
@@ -91,47 +97,60 @@ func opConcShared(a []Sx) Sx {
 	n, seed := a[2].Int(), a[3].U64()
 	switch kind {
 	case "bundle":
-		b := bundleOf(art[0])
-		return runMany(n, seed, func() Sx {
-			var buf bytes.Buffer
-			_, err := b.WriteTo(&buf)
-			return bytesR(buf.Bytes(), err)
-		})
-	case "sxg":
-		e := exchangeOf(art[0])
-		nilEmptyMaps(e)
-		return inputKept(e, runMany(n, seed, func() Sx {
-			var buf bytes.Buffer
-			err := e.Write(&buf)
-			return bytesR(buf.Bytes(), err)
-		}))
-	case "sxg_headers":
-		e := exchangeOf(art[0])
-		nilEmptyMaps(e)
-		return inputKept(e, runMany(n, seed, func() Sx {
-			var buf bytes.Buffer
-			err := e.DumpExchangeHeaders(&buf)
-			return bytesR(buf.Bytes(), err)
-		}))
-	case "sxg_message":
-		e := exchangeOf(art[0])
-		s := &sxg.Signer{Date: time.Unix(art[3].I64(), 0), Expires: time.Unix(art[4].I64(), 0),
-			Certs: fakeCerts(art[1]), ValidityUrl: mustURL(string(art[2].B))}
-		return runMany(n, seed, func() Sx {
-			var buf bytes.Buffer
-			err := e.DumpSignedMessage(&buf, s)
-			return bytesR(buf.Bytes(), err)
-		})
-	case "certchain":
-		chain := certurl.CertChain{}
-		for _, it := range art {
-			chain = append(chain, augOf(it))
+		on := func(b *bundle.Bundle) func() Sx {
+			return func() Sx {
+				var buf bytes.Buffer
+				_, err := b.WriteTo(&buf)
+				return bytesR(buf.Bytes(), err)
+			}
 		}
-		return runMany(n, seed, func() Sx {
-			var buf bytes.Buffer
-			err := chain.Write(&buf)
-			return bytesR(buf.Bytes(), err)
-		})
+		return runManyRef(n, seed, on(bundleOf(art[0])), on(bundleOf(art[0])))
+	case "sxg":
+		on := func(e *sxg.Exchange) func() Sx {
+			nilEmptyMaps(e)
+			return func() Sx {
+				var buf bytes.Buffer
+				err := e.Write(&buf)
+				return bytesR(buf.Bytes(), err)
+			}
+		}
+		e := exchangeOf(art[0])
+		return inputKept(e, runManyRef(n, seed, on(e), on(exchangeOf(art[0]))))
+	case "sxg_headers":
+		on := func(e *sxg.Exchange) func() Sx {
+			nilEmptyMaps(e)
+			return func() Sx {
+				var buf bytes.Buffer
+				err := e.DumpExchangeHeaders(&buf)
+				return bytesR(buf.Bytes(), err)
+			}
+		}
+		e := exchangeOf(art[0])
+		return inputKept(e, runManyRef(n, seed, on(e), on(exchangeOf(art[0]))))
+	case "sxg_message":
+		on := func(e *sxg.Exchange) func() Sx {
+			s := &sxg.Signer{Date: time.Unix(art[3].I64(), 0), Expires: time.Unix(art[4].I64(), 0),
+				Certs: fakeCerts(art[1]), ValidityUrl: mustURL(string(art[2].B))}
+			return func() Sx {
+				var buf bytes.Buffer
+				err := e.DumpSignedMessage(&buf, s)
+				return bytesR(buf.Bytes(), err)
+			}
+		}
+		return runManyRef(n, seed, on(exchangeOf(art[0])), on(exchangeOf(art[0])))
+	case "certchain":
+		on := func() func() Sx {
+			chain := certurl.CertChain{}
+			for _, it := range art {
+				chain = append(chain, augOf(it))
+			}
+			return func() Sx {
+				var buf bytes.Buffer
+				err := chain.Write(&buf)
+				return bytesR(buf.Bytes(), err)
+			}
+		}
+		return runManyRef(n, seed, on(), on())
 	}
 	return L(Sym("badkind"))
 }
